@@ -53,11 +53,11 @@ package config
 //@   ensures [C17] !old(aload(p.value).stagedValue.some) ==> aload(p.value).comittedValue.value == old(aload(p.value).comittedValue.value) && aload(p.value).comittedValue.overwritten.some == old(aload(p.value).comittedValue.overwritten.some)
 
 // Saving a property writes its base value: a command-line override is never written into the file.
-//@ props C17 C16
+//@ props C17 C18 C16
 //@ func ConfigProp.MarshalJSON
 //@   nopanic
 //@   requires aset(p.value)
-//@   ensures [C17] result1 == nil ==> sid(result0) == jsonenc(aload(p.value).comittedValue.value)
+//@   ensures [C17,C18] result1 == nil ==> sid(result0) == jsonenc(aload(p.value).comittedValue.value)
 
 // ---------------------------------------------------------------- workable configurations (C18)
 
@@ -87,6 +87,15 @@ package config
 //@   pure
 //@   requires aset(c.Listen.value)
 //@   ensures [C18] result == nil ==> len(cfgval(c.Listen)) > 0
+
+// A configuration is accepted only if every section is workable.  (That no property is
+// missing is checked by checkIsSetRecursive, a reflection walk outside the verifier's
+// reach: trusted here, with a bounded test standing in - see /verif/bounded.)
+//@ props C18 C16
+//@ func Config.verify
+//@   nopanic
+//@   requires c != nil && specCacheSet(c.Cache) && aset(c.Proxy.Listen.value) && aset(c.Proxy.CaCert.value) && aset(c.Proxy.CaKey.value) && aset(c.Webserver.Listen.value)
+//@   ensures [C18] result == nil ==> specWorkableCache(c.Cache) && len(cfgval(c.Proxy.Listen)) > 0 && len(cfgval(c.Proxy.CaCert)) > 0 && len(cfgval(c.Proxy.CaKey)) > 0 && len(cfgval(c.Webserver.Listen)) > 0
 
 // ---------------------------------------------------------------- updates (C18)
 
